@@ -198,8 +198,40 @@ class Normaliser:
                 ast.fix_missing_locations(ret)
                 fd.body = [s_ for s_ in fd.body if s_ is not g and s_ is not body[1]] + [ret]
 
+    @staticmethod
+    def _fusable_generator(fd: ast.FunctionDef) -> bool:
+        """a plain generator whose `yield`s are statements: `for x in G(..): BODY` can be replaced by G's body with each
+        `yield E` turned into `x = E; BODY`"""
+        if fd.decorator_list and not all(isinstance(d, ast.Name) and d.id == "staticmethod" for d in fd.decorator_list):
+            return False
+        if fd.args.vararg or fd.args.kwarg or len(_body_wo_doc(fd)) > 30:
+            return False
+        ys = 0
+        for n in _walk_local(fd):
+            if isinstance(n, (ast.YieldFrom, ast.Await, ast.Global, ast.Nonlocal, ast.FunctionDef, ast.AsyncFunctionDef, ast.ClassDef, ast.Lambda, ast.Try)):
+                return False
+            if isinstance(n, ast.Return) and n.value is not None:
+                return False
+            if isinstance(n, ast.Return):
+                return False
+            if isinstance(n, ast.Call) and ((isinstance(n.func, ast.Name) and n.func.id == fd.name) or (isinstance(n.func, ast.Attribute) and n.func.attr == fd.name)):
+                return False
+            if isinstance(n, ast.Yield):
+                ys += 1
+        # every yield is an expression statement
+        stmts_y = sum(1 for n in _walk_local(fd) if isinstance(n, ast.Expr) and isinstance(n.value, ast.Yield))
+        return ys > 0 and ys == stmts_y
+
     def discover(self) -> None:
         self.finders: Dict[str, ast.FunctionDef] = {}
+        self.gens: Dict[Tuple[Optional[str], str], ast.FunctionDef] = {}
+        for st in self.tree.body:
+            if isinstance(st, ast.FunctionDef) and "%s.%s" % (self.mod, st.name) not in self.known_funcs and self._fusable_generator(st):
+                self.gens[(None, st.name)] = st
+            elif isinstance(st, ast.ClassDef) and any(q.startswith("%s.%s." % (self.mod, st.name)) for q in self.known_funcs):
+                for s2 in st.body:
+                    if isinstance(s2, ast.FunctionDef) and "%s.%s.%s" % (self.mod, st.name, s2.name) not in self.known_funcs and self._fusable_generator(s2):
+                        self.gens[(st.name, s2.name)] = s2
         for st in self.tree.body:
             if isinstance(st, ast.FunctionDef) and "%s.%s" % (self.mod, st.name) not in self.known_funcs:
                 self._closure_to_lambda(st)
@@ -345,7 +377,7 @@ class Normaliser:
         return self.tree
 
     def _drop_unreferenced(self) -> None:
-        for (cls, name), fdh in list(self.helpers.items()):
+        for (cls, name), fdh in list(self.helpers.items()) + list(getattr(self, "gens", {}).items()):
             refs = 0
             mangled = "_%s%s" % (cls, name) if cls and name.startswith("__") else None
             for n in ast.walk(self.tree):
@@ -429,7 +461,7 @@ class Normaliser:
                     return None
         else:
             return None
-        if not d.keys or len(d.keys) > 16 or not all(isinstance(k, ast.Constant) for k in d.keys) or not all(_simple(v) for v in d.values):
+        if not d.keys or len(d.keys) > 16 or not all(isinstance(k, ast.Constant) for k in d.keys) or not all(_simple(v) or isinstance(v, ast.Lambda) for v in d.values):
             return None
         return d
 
@@ -518,6 +550,10 @@ class Normaliser:
             return None
         v = st.value
         key, dexpr, has_default = None, None, False
+        outer_cond = None
+        if isinstance(v, ast.IfExp) and isinstance(v.orelse, ast.Constant) and v.orelse.value is None:
+            # `T = D.get(K) if COND else None`
+            outer_cond, v = v.test, v.body
         if isinstance(v, ast.Call) and isinstance(v.func, ast.Attribute) and v.func.attr == "get" and len(v.args) == 1 and not v.keywords:
             key, dexpr, has_default = v.args[0], v.func.value, True
         elif isinstance(v, ast.Subscript) and isinstance(v.ctx, ast.Load):
@@ -558,6 +594,10 @@ class Normaliser:
         node = None
         for test, body in reversed(branches):
             node = ast.If(test=test, body=body, orelse=([node] if node is not None else tail))
+        if outer_cond is not None:
+            if not has_default:
+                return None
+            node = ast.If(test=copy.deepcopy(outer_cond), body=[node], orelse=copy.deepcopy(tail))
         for n in ast.walk(node):
             if not hasattr(n, "lineno"):
                 ast.copy_location(n, st)
@@ -624,6 +664,11 @@ class Normaliser:
         if isinstance(st, ast.Try):
             for h in st.handlers:
                 h.body = self._block(h.body, fd)
+        # N9 generator fusion: `for x in G(args): BODY`, G a new plain generator
+        if isinstance(st, ast.For) and not st.orelse and isinstance(st.iter, ast.Call) and not any(isinstance(n, (ast.Break, ast.Continue)) for b in st.body for n in ast.walk(b)):
+            fz = self._fuse(st, fd)
+            if fz is not None:
+                return self._block(fz, fd)
         # N3 unrolling
         if isinstance(st, ast.For) and not st.orelse:
             un = self._unroll(st, fd)
@@ -955,6 +1000,54 @@ class Normaliser:
             ast.copy_location(s, call) if not hasattr(s, "lineno") else None
         return pre + body, result
 
+    def _fuse(self, st: ast.For, fd: ast.FunctionDef) -> Optional[List[ast.stmt]]:
+        f = st.iter.func
+        g, recv = None, None
+        if isinstance(f, ast.Name) and (None, f.id) in self.gens and f.id not in self._locals(fd):
+            g = self.gens[(None, f.id)]
+        elif isinstance(f, ast.Attribute) and isinstance(f.value, ast.Name) and f.value.id in ("self", "cls") and self._cls is not None and (self._cls, f.attr) in self.gens:
+            g = self.gens[(self._cls, f.attr)]
+            if not any(isinstance(d, ast.Name) and d.id == "staticmethod" for d in g.decorator_list):
+                recv = f.value
+        if g is None or g is fd:
+            return None
+        b = self._bind_args(st.iter, recv, g)
+        if b is None:
+            return None
+        self.counter += 1
+        sfx = "__g%d" % self.counter
+        mapping: Dict[str, ast.AST] = {}
+        pre: List[ast.stmt] = []
+        rename = {n: n + sfx for n in _bound_names(g)}
+        for p, x in b:
+            if _simple(x) and not _stored(g, p):
+                mapping[p] = x
+                rename.pop(p, None)
+            else:
+                pre.append(ast.copy_location(ast.Assign(targets=[ast.Name(id=p + sfx, ctx=ast.Store())], value=x), st))
+        body = [_Rename(mapping, rename).visit(s_) for s_ in copy.deepcopy(_body_wo_doc(g))]
+        loop_body, target = st.body, st.target
+
+        class Y(ast.NodeTransformer):
+            def visit_Expr(self, n):
+                if isinstance(n.value, ast.Yield):
+                    val = n.value.value if n.value.value is not None else ast.Constant(value=None)
+                    tnames = [t for t in (target.elts if isinstance(target, (ast.Tuple, ast.List)) else [target])]
+                    vals = list(val.elts) if isinstance(target, (ast.Tuple, ast.List)) and isinstance(val, (ast.Tuple, ast.List)) and len(val.elts) == len(tnames) else ([val] if not isinstance(target, (ast.Tuple, ast.List)) else None)
+                    stored = {x.id for b_ in loop_body for x in ast.walk(b_) if isinstance(x, ast.Name) and isinstance(x.ctx, ast.Store)}
+                    if vals is not None and all(isinstance(t, ast.Name) for t in tnames) and all(_simple(v_) for v_ in vals) and not ({t.id for t in tnames} & stored):
+                        m_ = {t.id: v_ for t, v_ in zip(tnames, vals)}
+                        return [_Rename(m_, {}).visit(copy.deepcopy(b_)) for b_ in loop_body]
+                    a = ast.copy_location(ast.Assign(targets=[copy.deepcopy(target)], value=val), n)
+                    return [a] + copy.deepcopy(loop_body)
+                return n
+        wrapper = ast.Module(body=body, type_ignores=[])
+        out = pre + Y().visit(wrapper).body
+        for s_ in out:
+            ast.fix_missing_locations(s_)
+        self.notes.append("fused generator %s into the loop consuming it in %s" % (g.name, fd.name))
+        return out
+
     # ------------------------------------------------------------------ N3
     def _unroll(self, st: ast.For, fd: ast.FunctionDef) -> Optional[List[ast.stmt]]:
         it = st.iter
@@ -969,6 +1062,14 @@ class Normaliser:
                 it = ast.Tuple(elts=list(d.values), ctx=ast.Load())
         elif isinstance(it, ast.Dict) and all(k is not None for k in it.keys):
             it = ast.Tuple(elts=list(it.keys), ctx=ast.Load())
+        if isinstance(it, ast.Name):
+            # a local bound exactly once to a tuple/list literal, never written through or re-bound
+            binds = [n for n in _walk_local(fd) if isinstance(n, (ast.Assign, ast.AnnAssign)) and n.value is not None and isinstance((n.targets[0] if isinstance(n, ast.Assign) else n.target), ast.Name)
+                     and (n.targets[0] if isinstance(n, ast.Assign) else n.target).id == it.id]
+            n_store = sum(1 for n in _walk_local(fd) if isinstance(n, ast.Name) and n.id == it.id and isinstance(n.ctx, (ast.Store, ast.Del)))
+            if len(binds) == 1 and n_store == 1 and isinstance(binds[0].value, (ast.Tuple, ast.List)) and it.id not in self._written_roots_fn(fd) \
+                    and not any(isinstance(n, ast.Call) and isinstance(n.func, ast.Attribute) and isinstance(n.func.value, ast.Name) and n.func.value.id == it.id for n in _walk_local(fd)):
+                it = binds[0].value
         if not isinstance(it, (ast.Tuple, ast.List)) or not it.elts or len(it.elts) > MAX_UNROLL:
             return None
         tgt = st.target
